@@ -318,16 +318,16 @@ theorem mergeSorted_spec (sorted : List PRange) (hne : sorted ≠ []) (hg : Good
 
 /-! ### the builder invariant -/
 
-structure Inv (b : Builder) : Prop where
+structure BuilderInv (b : Builder) : Prop where
   good : Good b.ranges
   sorted : b.unsorted = false → Disj b.ranges
   nonempty : b.unsorted = true → b.ranges ≠ []
 
-theorem inv_empty : Inv {} :=
+theorem inv_empty : BuilderInv {} :=
   ⟨good_nil, fun _ => List.Pairwise.nil, fun h => by cases h⟩
 
-theorem addRange_spec (b : Builder) (s e : Int) (hb : Inv b) :
-    ∃ b', b.addRange s e = .ok b' ∧ Inv b' ∧
+theorem addRange_spec (b : Builder) (s e : Int) (hb : BuilderInv b) :
+    ∃ b', b.addRange s e = .ok b' ∧ BuilderInv b' ∧
       ∀ x, memR b'.ranges x ↔ memR b.ranges x ∨ (0 ≤ x ∧ s ≤ x ∧ x < e) := by
   obtain ⟨rs, u⟩ := b
   obtain ⟨hgood, hsorted, hnonempty⟩ := hb
@@ -429,8 +429,8 @@ theorem add_covers (p x : Int) (h : minInt ≤ p ∧ p ≤ maxInt) :
       simp only [minInt, maxInt, Spec.maxInt] at *
       omega
 
-theorem call_spec (b : Builder) (c : BCall) (hc : BCall.InRange c) (hb : Inv b) :
-    ∃ b', b.call c = .ok b' ∧ Inv b' ∧
+theorem call_spec (b : Builder) (c : BCall) (hc : BCall.InRange c) (hb : BuilderInv b) :
+    ∃ b', b.call c = .ok b' ∧ BuilderInv b' ∧
       ∀ x, memR b'.ranges x ↔ memR b.ranges x ∨ (0 ≤ x ∧ (toSpecCall c).covers x) := by
   cases c with
   | addRange s e => exact addRange_spec b s e hb
@@ -441,8 +441,8 @@ theorem call_spec (b : Builder) (c : BCall) (hc : BCall.InRange c) (hb : Inv b) 
     rw [hm, add_covers p x hc]
     exact Iff.rfl
 
-theorem calls_spec (cs : List BCall) : ∀ (b : Builder), (∀ c ∈ cs, BCall.InRange c) → Inv b →
-    ∃ b', b.calls cs = .ok b' ∧ Inv b' ∧
+theorem calls_spec (cs : List BCall) : ∀ (b : Builder), (∀ c ∈ cs, BCall.InRange c) → BuilderInv b →
+    ∃ b', b.calls cs = .ok b' ∧ BuilderInv b' ∧
       ∀ x, memR b'.ranges x ↔
         memR b.ranges x ∨ (0 ≤ x ∧ ∃ c ∈ cs.map toSpecCall, c.covers x) := by
   induction cs with
@@ -473,7 +473,7 @@ theorem calls_spec (cs : List BCall) : ∀ (b : Builder), (∀ c ∈ cs, BCall.I
           · exact Or.inl (Or.inr ⟨h0, h⟩)
           · exact Or.inr ⟨h0, c', hc', h⟩
 
-theorem buildWith_spec (b : Builder) (hb : Inv b) (sorted : List PRange)
+theorem buildWith_spec (b : Builder) (hb : BuilderInv b) (sorted : List PRange)
     (hs : IsSortOf sorted b.ranges) :
     ∃ r, b.buildWith sorted = .ok (r, {}) ∧ Spec.NormalRanges (toPairs r) ∧
       ∀ x, Spec.memRanges (toPairs r) x ↔ memR b.ranges x := by
